@@ -28,7 +28,7 @@ SPECS = {
         note=NOTE + "Outside: interleavings at the level of OS threads (C18); delayed TA signer responses are exercised only through the embedded signer.",
         technique="Coq proof over CA key/object-set model (case analysis + invariants) + event-level correspondence evaluated in Coq"),
     "C03": dict(
-        evals=["agrees", "c03_ok"],
+        evals=["agrees", "c03_ok"], info=["hyps_ok"],
         text=("Theorems (Coq, closed): every operation on the published-object set of a key (insert/replace, remove, ROA/ASPA/router updates, child "
               "certificate issue/remove/suspend, retire at key roll, re-issue) keeps the relation: whatever was published is still published unchanged, "
               "or is on the revocation list, or has expired, and no revocation is dropped before expiry; lifted to every event of the pre-save listener "
@@ -39,7 +39,7 @@ SPECS = {
         note=NOTE + "Removal from the repository after the next synchronisation is repository content (C01/C10); here the CA-side object sets are decided.",
         technique="Coq proof of a revocation-coverage relation over all object-set operations + event-level correspondence evaluated in Coq"),
     "C14": dict(
-        evals=["agrees", "c14_ok"],
+        evals=["agrees", "c14_ok"], info=["hyps_ok"],
         text=("Theorems (Coq, closed): a class is re-issued iff forced or one of its key sets (current, staging, old) is within the margin of its next "
               "update, for every class; nothing due => the run changes nothing; numbers grow by exactly one per re-issue for all sets of a class "
               "together; content updates never touch the number and re-issues never change payloads. Tie: event-level correspondence (numbers and "
@@ -53,13 +53,14 @@ SPECS = {
 TEMPLATE = '''"""{pid} check configuration (shared CA scenario `cacore`). Generated by lib/gen_ca_props.py."""
 PROP = {{
     'translators': [],
-    'coq_targets': ['props/{pid}.vo', 'ca/CaCheck.vo'],
+    'coq_targets': ['props/{pid}.vo', 'ca/CaCheck.vo', 'ca/CaOracleProofs.vo'],
     'props_file': 'props/{pid}.v',
     'checker_vo': 'ca/CaCheck.vo',
     'scenario': 'cacore',
     'evals': {evals!r},
+    'info_evals': {info!r},
     'extra': {{'quick': {{'histories': 8, 'ops': 60, 'evals': {ev!r}{xtra}}}, 'thorough': {{'histories': 96, 'ops': 150, 'evals': {ev!r}{xtra}}}}},
-    'replay_header': "From KV Require Import base.Tac ca.Ca ca.CaCheck.\\nOpen Scope N_scope.",
+    'replay_header': "From KV Require Import base.Tac ca.Ca ca.CaCheck ca.CaOracleProofs.\\nOpen Scope N_scope.",
     'replay_footer': {footer!r},
     'stats_keys': ['histories', 'ops_per_history', 'command_distribution', 'keystate_distribution'],
     'assumptions': {assump!r},
@@ -76,7 +77,7 @@ META = {{
 
 for pid, sp in SPECS.items():
     footer = "\n".join("Eval vm_compute in (failing %s base_index cases)." % e for e in sp["evals"])
-    txt = TEMPLATE.format(pid=pid, evals=sp["evals"], ev=",".join(sp["evals"]), footer=footer, assump=COMMON_ASSUMP,
+    txt = TEMPLATE.format(pid=pid, evals=sp["evals"], info=sp.get("info", []), ev=",".join(sp["evals"] + sp.get("info", [])), footer=footer, assump=COMMON_ASSUMP,
                           text=sp["text"], note=sp["note"], technique=sp["technique"], xtra=(", 'slash': 1" if pid == "C14" else ""))
     open(os.path.join(HERE, "props.d", pid + ".py"), "w").write(txt)
 print("written", sorted(SPECS))
